@@ -35,6 +35,7 @@ def run(ctx):
         ctx.obligations.append(dict(name="Props/C06 theorems", ok=False, why="theorem list missing"))
     kvh = C.build_harness("asan")
     rng = ctx.rng
+    diffs = C.unit_correspondence(ctx, kvh, C.gen_ops("gen_io.py", ctx.seed, 1 if ctx.quick else 8, prefixes=('write_read', 'read')), "write+read")
     sc = C.scratch()
     alns = [alngen.rand_alignment(rng, not ctx.quick) for _ in range(60 if ctx.quick else 600)]
     lines, meta = [], []
@@ -86,7 +87,8 @@ def run(ctx):
             ctx.sample(dict(alignment=aln, fmt=f))
     for why, rep in fails[:5]:
         ctx.violation(why, dict(kind="oracle", detail=rep))
-    if not ok and not fails:
+    C.report_diffs(ctx, diffs, fails, "write+read")
+    if not ok and not fails and not diffs:
         ctx.violation("proof obligations of C06 no longer check", dict(kind="proof", broken=[o for o in ctx.obligations if not o["ok"]],
                                                                         log=getattr(ctx, "build_errors", "")[-3000:]), no_input=True)
     return ctx.finish(LEVEL, CHECKER)
